@@ -154,6 +154,19 @@ example : (Matrix.fromFlatRowMajor 2 3 (List.range 6)).isSome = true ∧
     Matrix.fromFlatRowMajor (2 ^ 63 + 1) 2 [1, 2] = none ∧
     matrixEmpty (2 ^ 63) 2 7 = none := by decide
 
+/-- **A view adaptor's setter with invalid arguments** (`TensorRename::set_names`): whatever
+    name list it is called with, the names of the surviving view are unique and as many as
+    before; a call that panics (repeated names) leaves the names it had. -/
+theorem leaf_inv_view_setter (names new : List ν) (h : names.Nodup) :
+    (renameSetNames names new).1.Nodup ∧
+      (renameSetNames names new).1.length = names.length ∧
+      ((renameSetNames names new).2 = true → (renameSetNames names new).1 = names) ∧
+      ((renameSetNames names new).2 = false → (renameSetNames names new).1 = new ∧ new.Nodup) :=
+  renameSetNames_spec names new h
+
+example : renameSetNames ["a", "b", "c"] ["x", "x", "y"] = (["a", "b", "c"], true) ∧
+    renameSetNames ["a", "b", "c"] ["x", "z", "y"] = (["x", "z", "y"], false) := by decide
+
 /-- **`leaf_inv`** in one statement: whatever safe calls are made on a tensor or a matrix that
     satisfies the invariant — any operations, any arguments, panics caught and the object used
     again, for any finite history — the object keeps `stored elements = Π lengths` (resp.
